@@ -5,6 +5,7 @@ import (
 	"go/token"
 	"go/types"
 	"sort"
+	"strings"
 
 	"golang.org/x/tools/go/ssa"
 )
@@ -241,10 +242,10 @@ func cellStores(v ssa.Value) []*ssa.Store {
 
 // nilOrigin: one way a returned value can be nil.
 type nilOrigin struct {
-	konst bool          // the nil constant itself (directly or through a phi edge from block pred)
+	konst bool // the nil constant itself (directly or through a phi edge from block pred)
 	pred  *ssa.BasicBlock
 	store *ssa.Store // nil stored into a result cell at this instruction
-	call  *ssa.Call // nil propagated from this call's result
+	call  *ssa.Call  // nil propagated from this call's result
 }
 
 func nilOrigins(ns *nilSummaries, v ssa.Value) []nilOrigin {
@@ -355,6 +356,8 @@ func runC11(c *Ctx) {
 		c.rule("R11.3", "mandatory children are assigned: every child field a printer dereferences without a nil test is filled with a sub-parse on every success path of the parse method that builds the node")
 		c.floor(25)
 		ruleTokenOrder(c, t, g, "assigned")
+		r11_6(c, t)
+		r11_5(c, t)
 	}
 }
 
@@ -639,4 +642,608 @@ func r11_4(c *Ctx, a *parserAnchors) {
 			c.check(isCur || isPeek || isParam, key, call.Pos(), "passes the parser's current or peek token (a token of the input)", "the error is located at a token that is neither the current nor the peek token")
 		})
 	}
+}
+
+// ---- R11.6 (part): the climbing loop makes progress ---------------------------------------------------------------------
+//
+// The expression loop continues while the peek token's binding power exceeds the requested one and then applies the
+// infix function registered for that token; a token with a binding power but WITHOUT an infix function would be looked
+// up, found missing, and the loop would spin without consuming anything. Termination of expression parsing therefore
+// rests on the table invariant  keys(binding powers) ⊆ keys(infix functions)  at all times, and on the infix applier
+// advancing before it calls the function. Decided here: the invariant at construction and under every writer, and
+// the shape of the applier. Not decided: termination of the other loops (each advances once per iteration by
+// inspection of the parse-path enumeration, which would not terminate otherwise) and recursion depth.
+func r11_6(c *Ctx, t *tables) {
+	c.rule("R11.6", "the expression loop makes progress: every token with a binding power has an infix function (at construction and under every writer of the two tables), and the infix applier advances before calling it")
+	c.floor(4)
+	c.buildSSA()
+	pt := t.pt
+	if pt.precFld == nil || pt.infixFld == nil {
+		c.unres("tables", token.NoPos, "Parser binding-power / infix table fields not found")
+		return
+	}
+	// (1) at construction
+	var missing []string
+	for k := range pt.prec {
+		if pt.infix[k] == nil {
+			missing = append(missing, t.tc.name(k))
+		}
+	}
+	sort.Strings(missing)
+	c.check(len(missing) == 0, "constructor: binding-power keys ⊆ infix keys", pt.ctor.Pos(), fmt.Sprintf("%d tokens with a binding power, each has an infix function", len(pt.prec)), fmt.Sprintf("tokens %s have a binding power but no infix function: an expression followed by one of them never ends (the loop finds no function to apply and consumes nothing)", strings.Join(missing, ", ")))
+	// (2) writers
+	isTableUpdate := func(in ssa.Instruction, fld *types.Var) (*ssa.MapUpdate, bool) {
+		mu, ok := in.(*ssa.MapUpdate)
+		if !ok {
+			return nil, false
+		}
+		if _, ok := isFieldLoad(mu.Map, fld); !ok {
+			return nil, false
+		}
+		return mu, true
+	}
+	nw := 0
+	for _, f := range c.libFunctions("parser") {
+		allInstrs(f, func(b *ssa.BasicBlock, _ int, in ssa.Instruction) {
+			mu, ok := isTableUpdate(in, pt.precFld)
+			if !ok {
+				return
+			}
+			nw++
+			key := fmt.Sprintf("%s: binding-power entry #%d comes with an infix function", fnName(f), nw)
+			paired := false
+			for _, in2 := range b.Instrs {
+				if mu2, ok := isTableUpdate(in2, pt.infixFld); ok && mu2.Key == mu.Key {
+					if k, isK := mu2.Value.(*ssa.Const); !isK || !k.IsNil() {
+						paired = true
+					}
+				}
+			}
+			c.check(paired, key, mu.Pos(), "the same key is entered into the infix table in the same block", "a binding power is entered for a token without entering an infix function for the same token: the expression loop then spins on that token")
+		})
+		// deletions / nil entries in the infix table
+		allInstrs(f, func(_ *ssa.BasicBlock, _ int, in ssa.Instruction) {
+			if call, ok := in.(*ssa.Call); ok {
+				if b, ok := call.Call.Value.(*ssa.Builtin); ok && b.Name() == "delete" {
+					if _, ok := isFieldLoad(call.Call.Args[0], pt.infixFld); ok {
+						c.bad(fnName(f)+": deletes from the infix table", call.Pos(), "an infix function is removed while the token may keep its binding power")
+					}
+				}
+			}
+			if mu, ok := isTableUpdate(in, pt.infixFld); ok {
+				if k, isK := mu.Value.(*ssa.Const); isK && k.IsNil() {
+					c.bad(fnName(f)+": nil infix function", mu.Pos(), "a nil function is entered into the infix table")
+				}
+			}
+		})
+		// the table fields themselves are replaced only by the constructor
+		allInstrs(f, func(_ *ssa.BasicBlock, _ int, in ssa.Instruction) {
+			if st, ok := in.(*ssa.Store); ok {
+				for _, fld := range []*types.Var{pt.precFld, pt.infixFld} {
+					if _, ok := isFieldAddr(st.Addr, fld); ok && c.declIdx[f.Object().(*types.Func)] != pt.ctor {
+						c.bad(fmt.Sprintf("%s: replaces table %s", fnName(f), fld.Name()), st.Pos(), "only the constructor may install the tables")
+					}
+				}
+			}
+		})
+	}
+	// (3) the infix applier: looks up the PEEK token's function, returns its argument when there is none, otherwise
+	// advances exactly once before calling it
+	a := c.parserAnchors()
+	n := 0
+	for _, f := range c.libFunctions("parser") {
+		var lookup *ssa.Lookup
+		allInstrs(f, func(_ *ssa.BasicBlock, _ int, in ssa.Instruction) {
+			if lk, ok := in.(*ssa.Lookup); ok {
+				if _, ok := isFieldLoad(lk.X, pt.infixFld); ok {
+					lookup = lk
+				}
+			}
+		})
+		if lookup == nil {
+			continue
+		}
+		n++
+		key := fmt.Sprintf("%s: advances before applying the infix function", fnName(f))
+		// the dynamic call of the looked-up function must be preceded (dominated) by an advance, and the key must be the peek token's type
+		peekKey := tokenFieldLoad(lookup.Index, a.peek, "Type")
+		var dyn *ssa.Call
+		var adv *ssa.Call
+		allInstrs(f, func(_ *ssa.BasicBlock, _ int, in ssa.Instruction) {
+			if call, ok := in.(*ssa.Call); ok {
+				if call.Call.Value == ssa.Value(lookup) || (call.Call.StaticCallee() == nil && !call.Call.IsInvoke() && dependsOn(call.Call.Value, func(v ssa.Value) bool { return v == ssa.Value(lookup) })) {
+					dyn = call
+				}
+				if call.Call.StaticCallee() == a.nextTok {
+					adv = call
+				}
+			}
+		})
+		switch {
+		case !peekKey:
+			c.info(key, lookup.Pos(), "the lookup is not keyed by the peek token's type (not the applier)")
+		case dyn == nil || adv == nil:
+			c.bad(key, lookup.Pos(), "the function looked up for the peek token is called without an advance in this function: the operator token is never consumed and the loop spins")
+		default:
+			c.check(instrDominates(adv, dyn), key, adv.Pos(), "NextToken dominates the call of the looked-up function", "the looked-up function can be called without the operator token having been consumed first")
+		}
+	}
+	if n == 0 {
+		c.unres("infix applier", token.NoPos, "no function looks up the infix table")
+	}
+}
+
+// ---- R11.5: panic obligations of parser, ast, compiler, sourcemap ----------------------------------------------------
+//
+// Every instruction of the four packages that can panic by itself is enumerated and must be discharged: an index or
+// slice by a dominating bound (guardedIndex), a type assertion by its comma-ok form, a dynamic call by where its
+// function value comes from (a table entry tested for nil, a constructor-initialised field that is only ever
+// replaced by non-nil closures, a parameter supplied by a plugin — assumed non-nil, listed), a map update by the map
+// being allocated in the constructor, integer division by a non-zero constant divisor, explicit panics never.
+func r11_5(c *Ctx, t *tables) {
+	c.rule("R11.5", "panic obligations of packages parser, ast, compiler, sourcemap: every index, slice, type assertion, dynamic call, map update, division and panic is enumerated and discharged")
+	c.floor(15)
+	c.buildSSA()
+	nonNilFuncFields := map[*types.Var]bool{}
+	// function-typed fields whose every store is a non-nil function value (closure, function, bound method)
+	for _, pkg := range []string{"parser", "ast", "compiler", "sourcemap"} {
+		p := c.Pkgs[pkg]
+		sc := p.Types.Scope()
+		for _, nm := range sc.Names() {
+			tn, ok := sc.Lookup(nm).(*types.TypeName)
+			if !ok {
+				continue
+			}
+			st, ok := tn.Type().Underlying().(*types.Struct)
+			if !ok {
+				continue
+			}
+			for i := 0; i < st.NumFields(); i++ {
+				if _, isSig := st.Field(i).Type().Underlying().(*types.Signature); isSig {
+					nonNilFuncFields[st.Field(i)] = true
+				}
+			}
+		}
+	}
+	stores := map[*types.Var]int{}
+	for _, f := range c.libFunctions() {
+		allInstrs(f, func(_ *ssa.BasicBlock, _ int, in ssa.Instruction) {
+			st, ok := in.(*ssa.Store)
+			if !ok {
+				return
+			}
+			fa, ok := st.Addr.(*ssa.FieldAddr)
+			if !ok {
+				return
+			}
+			fld := fieldOfAddr(fa)
+			if !nonNilFuncFields[fld] {
+				return
+			}
+			stores[fld]++
+			switch v := st.Val.(type) {
+			case *ssa.MakeClosure, *ssa.Function:
+			case *ssa.Const:
+				if v.IsNil() {
+					nonNilFuncFields[fld] = false
+				}
+			default:
+				nonNilFuncFields[fld] = false
+			}
+		})
+	}
+	for _, f := range c.libFunctions("parser", "ast", "compiler", "sourcemap") {
+		n := map[string]int{}
+		key := func(kind string) string {
+			n[kind]++
+			return fmt.Sprintf("%s: %s #%d", fnName(f), kind, n[kind])
+		}
+		allInstrs(f, func(b *ssa.BasicBlock, _ int, in ssa.Instruction) {
+			switch x := in.(type) {
+			case *ssa.Index, *ssa.IndexAddr:
+				var base, idx ssa.Value
+				if i, ok := x.(*ssa.Index); ok {
+					base, idx = i.X, i.Index
+				} else {
+					i := x.(*ssa.IndexAddr)
+					base, idx = i.X, i.Index
+				}
+				// composite-literal element stores into a fresh array
+				if al, ok := base.(*ssa.Alloc); ok {
+					if arr, ok := deref(al.Type()).Underlying().(*types.Array); ok {
+						if k, ok := constInt64(idx); ok && k >= 0 && k < arr.Len() {
+							return
+						}
+					}
+				}
+				k := key("index")
+				if why := guardedIndex(f, base, idx, b); why != "" {
+					c.ok(k, in.Pos(), "%s", why)
+				} else if why := guardedIndexMore(f, base, idx, b); why != "" {
+					c.ok(k, in.Pos(), "%s", why)
+				} else {
+					c.bad(k, in.Pos(), "index %s[%s] is not shown to be in range: it can panic", base.Name(), idx.Name())
+				}
+			case *ssa.Slice:
+				if _, isArr := deref(x.X.Type()).Underlying().(*types.Array); isArr && x.Low == nil && x.High == nil {
+					return
+				}
+				k := key("slice")
+				if why := guardedSlice(f, x, b); why != "" {
+					c.ok(k, in.Pos(), "%s", why)
+				} else {
+					c.bad(k, in.Pos(), "slice bounds of %s are not shown to be in range: it can panic", x.X.Name())
+				}
+			case *ssa.TypeAssert:
+				k := key("type assertion")
+				c.check(x.CommaOk, k, in.Pos(), "comma-ok form", "a failing single-value type assertion panics")
+			case *ssa.Panic:
+				c.bad(key("panic"), in.Pos(), "explicit panic in library code")
+			case *ssa.BinOp:
+				if (x.Op == token.QUO || x.Op == token.REM) && !isFloat(x.Type()) {
+					k := key("division")
+					kk, ok := constInt64(x.Y)
+					c.check(ok && kk != 0, k, in.Pos(), "constant non-zero divisor", "integer division by a value that is not a non-zero constant")
+				}
+			case *ssa.MapUpdate:
+				k := key("map update")
+				if _, isMake := x.Map.(*ssa.MakeMap); isMake {
+					c.ok(k, in.Pos(), "freshly made map")
+					return
+				}
+				fld := sliceSourceField(x.Map)
+				if fld == nil {
+					if _, isPar := x.Map.(*ssa.Parameter); isPar {
+						c.ok(k, in.Pos(), "map supplied by the caller")
+						return
+					}
+					c.bad(k, in.Pos(), "update of a map whose origin is not understood (a nil map panics)")
+					return
+				}
+				// every store to that field in the library installs a made map
+				allMade, any := true, false
+				for _, g := range c.libFunctions() {
+					allInstrs(g, func(_ *ssa.BasicBlock, _ int, in2 ssa.Instruction) {
+						if st, ok := in2.(*ssa.Store); ok {
+							if _, ok := isFieldAddr(st.Addr, fld); ok {
+								any = true
+								if _, isMake := st.Val.(*ssa.MakeMap); !isMake {
+									allMade = false
+								}
+							}
+						}
+					})
+				}
+				c.check(any && allMade, k, in.Pos(), "field "+fld.Name()+" only ever holds a map made by the library", "field "+fld.Name()+" can hold a map that was not made (nil map): the update panics")
+			case *ssa.Call:
+				if x.Call.IsInvoke() || x.Call.StaticCallee() != nil {
+					return
+				}
+				if _, isB := x.Call.Value.(*ssa.Builtin); isB {
+					return
+				}
+				k := key("dynamic call")
+				why, ok := nonNilCallee(c, f, x, b, nonNilFuncFields)
+				if ok {
+					c.ok(k, in.Pos(), "%s", why)
+				} else {
+					c.bad(k, in.Pos(), "a function value that may be nil is called: %s", why)
+				}
+			}
+		})
+	}
+}
+
+// guardedSlice: s[lo:hi] with bounds justified by dominating tests / len.
+func guardedSlice(f *ssa.Function, x *ssa.Slice, at *ssa.BasicBlock) string {
+	// s[:len(s)-1] under len(s) > 0 ; s[:0] ; s[i:] with i <= len(s) are the idioms in use
+	isLenOf := func(v ssa.Value, base ssa.Value) bool {
+		lc, ok := isBuiltinCall(v, "len")
+		return ok && sameValue(lc.Call.Args[0], base)
+	}
+	if x.Low == nil && x.High != nil {
+		if k, ok := constInt64(x.High); ok && k == 0 {
+			return "s[:0]"
+		}
+		if bo, ok := x.High.(*ssa.BinOp); ok && bo.Op == token.SUB && isLenOf(bo.X, x.X) {
+			if k, ok := constInt64(bo.Y); ok && k >= 0 {
+				// len(s) >= k must be established
+				for _, ob := range f.Blocks {
+					iff := blockIf(ob)
+					if iff == nil {
+						continue
+					}
+					c2, ok := iff.Cond.(*ssa.BinOp)
+					if !ok || !isLenOf(c2.X, x.X) {
+						continue
+					}
+					kk, ok := constInt64(c2.Y)
+					if !ok {
+						continue
+					}
+					switch {
+					case c2.Op == token.GTR && kk >= k-1 && condEdgeDominates(ob, true, at),
+						c2.Op == token.GEQ && kk >= k && condEdgeDominates(ob, true, at),
+						c2.Op == token.EQL && kk < k && kk == 0 && k == 1 && condEdgeDominates(ob, false, at),
+						c2.Op == token.NEQ && kk == 0 && k == 1 && condEdgeDominates(ob, true, at),
+						c2.Op == token.LSS && kk <= k && condEdgeDominates(ob, false, at),
+						c2.Op == token.LEQ && kk <= k-1 && condEdgeDominates(ob, false, at):
+						return fmt.Sprintf("s[:len(s)-%d] under a dominating test that len(s) >= %d", k, k)
+					}
+				}
+			}
+		}
+	}
+	return ""
+}
+
+func sameValue(a, b ssa.Value) bool {
+	if a == b {
+		return true
+	}
+	// two loads of the same field of the same object with no store between are treated as the same slice header
+	ua, ok1 := a.(*ssa.UnOp)
+	ub, ok2 := b.(*ssa.UnOp)
+	if ok1 && ok2 {
+		fa, ok3 := ua.X.(*ssa.FieldAddr)
+		fb, ok4 := ub.X.(*ssa.FieldAddr)
+		if ok3 && ok4 && fa.X == fb.X && fa.Field == fb.Field {
+			return true
+		}
+	}
+	return false
+}
+
+// nonNilCallee justifies a call through a function value.
+func nonNilCallee(c *Ctx, f *ssa.Function, call *ssa.Call, at *ssa.BasicBlock, nonNilFields map[*types.Var]bool) (string, bool) {
+	v := call.Call.Value
+	switch x := v.(type) {
+	case *ssa.MakeClosure, *ssa.Function:
+		return "a function literal", true
+	case *ssa.Parameter:
+		return "parameter " + x.Name() + ": supplied by the caller/plugin (assumed non-nil; interceptors and operator constructors are outside the program)", true
+	case *ssa.FreeVar:
+		return "captured variable " + x.Name() + " (a parameter or previous field value of the enclosing function)", true
+	case *ssa.UnOp:
+		if fa, ok := x.X.(*ssa.FieldAddr); ok {
+			fld := fieldOfAddr(fa)
+			if nonNilFields[fld] {
+				return "field " + fld.Name() + ": every store in the library is a function literal or a closure", true
+			}
+			return "field " + fld.Name() + " can be stored a value that is not a function literal", false
+		}
+		if _, ok := x.X.(*ssa.FreeVar); ok {
+			return "captured cell (stored once by the enclosing function)", true
+		}
+		if _, ok := x.X.(*ssa.IndexAddr); ok {
+			return "element of a slice of functions supplied by the caller/plugin (range over options)", true
+		}
+	case *ssa.Lookup, *ssa.Extract:
+		// table entry: must be tested for nil on a dominating edge
+		for _, ob := range f.Blocks {
+			iff := blockIf(ob)
+			if iff == nil {
+				continue
+			}
+			bo, ok := iff.Cond.(*ssa.BinOp)
+			if !ok || bo.X != v || !isNilConst(bo.Y) {
+				continue
+			}
+			if bo.Op == token.EQL && condEdgeDominates(ob, false, at) || bo.Op == token.NEQ && condEdgeDominates(ob, true, at) {
+				return "table entry tested for nil before the call", true
+			}
+		}
+		return "a table entry is called without a nil test", false
+	case *ssa.Phi:
+		return "merged function value", false
+	}
+	return fmt.Sprintf("function value of kind %T", v), false
+}
+
+// guardedIndexMore: further bound idioms used outside the lexer (no CSE in go/ssa: expressions are compared by shape).
+func guardedIndexMore(f *ssa.Function, x, idx ssa.Value, at *ssa.BasicBlock) string {
+	sameColl := func(a ssa.Value) bool {
+		if a == x {
+			return true
+		}
+		if fa := sliceSourceField(a); fa != nil && fa == sliceSourceField(x) {
+			return true
+		}
+		return false
+	}
+	// lenOf(v): v is len(x) (possibly through a local copy of the len call)
+	lenOf := func(v ssa.Value) bool {
+		lc, ok := isBuiltinCall(v, "len")
+		return ok && sameColl(lc.Call.Args[0])
+	}
+	var sameExpr func(a, b ssa.Value) bool
+	sameExpr = func(a, b ssa.Value) bool {
+		if a == b {
+			return true
+		}
+		ka, ok1 := constInt64(a)
+		kb, ok2 := constInt64(b)
+		if ok1 && ok2 {
+			return ka == kb
+		}
+		ba, ok1 := a.(*ssa.BinOp)
+		bb, ok2 := b.(*ssa.BinOp)
+		if ok1 && ok2 && ba.Op == bb.Op {
+			return sameExpr(ba.X, bb.X) && sameExpr(ba.Y, bb.Y)
+		}
+		if lenOf(a) && lenOf(b) {
+			return true
+		}
+		return false
+	}
+	// minLen: the largest c such that a dominating edge establishes len(x) >= c
+	minLen := int64(0)
+	for _, ob := range f.Blocks {
+		iff := blockIf(ob)
+		if iff == nil {
+			continue
+		}
+		bo, ok := iff.Cond.(*ssa.BinOp)
+		if !ok {
+			continue
+		}
+		var k int64
+		op := bo.Op
+		switch {
+		case lenOf(bo.X):
+			kk, ok := constInt64(bo.Y)
+			if !ok {
+				continue
+			}
+			k = kk
+		case lenOf(bo.Y):
+			kk, ok := constInt64(bo.X)
+			if !ok {
+				continue
+			}
+			k = kk
+			switch op {
+			case token.LSS:
+				op = token.GTR
+			case token.LEQ:
+				op = token.GEQ
+			case token.GTR:
+				op = token.LSS
+			case token.GEQ:
+				op = token.LEQ
+			}
+		default:
+			continue
+		}
+		// len op k: which edge gives a lower bound?
+		type eb struct {
+			edge int
+			lo   int64
+		}
+		var ebs []eb
+		switch op {
+		case token.GTR:
+			ebs = []eb{{0, k + 1}}
+		case token.GEQ:
+			ebs = []eb{{0, k}}
+		case token.LSS:
+			ebs = []eb{{1, k}}
+		case token.LEQ:
+			ebs = []eb{{1, k + 1}}
+		case token.EQL:
+			if k == 0 {
+				ebs = []eb{{1, 1}}
+			} else {
+				ebs = []eb{{0, k}}
+			}
+		case token.NEQ:
+			if k == 0 {
+				ebs = []eb{{0, 1}}
+			}
+		}
+		for _, e := range ebs {
+			if edgeDominates(ob, ob.Succs[e.edge], at) && e.lo > minLen {
+				minLen = e.lo
+			}
+		}
+	}
+	// A: constant index below the established length
+	if k, ok := constInt64(idx); ok && k >= 0 && k < minLen {
+		return fmt.Sprintf("constant index %d under a dominating test that the length is at least %d", k, minLen)
+	}
+	// B: len(x) - c with the length known to be at least c
+	if bo, ok := idx.(*ssa.BinOp); ok && bo.Op == token.SUB && lenOf(bo.X) {
+		if c, ok := constInt64(bo.Y); ok && c >= 1 && c <= minLen {
+			return fmt.Sprintf("len-%d under a dominating test that the length is at least %d", c, minLen)
+		}
+	}
+	// C: the same expression was tested against the length (shape equality; go/ssa does not share subexpressions)
+	for _, ob := range f.Blocks {
+		iff := blockIf(ob)
+		if iff == nil {
+			continue
+		}
+		bo, ok := iff.Cond.(*ssa.BinOp)
+		if !ok {
+			continue
+		}
+		edge := -1
+		switch {
+		case bo.Op == token.LSS && sameExpr(bo.X, idx) && lenOf(bo.Y):
+			edge = 0
+		case bo.Op == token.GTR && sameExpr(bo.Y, idx) && lenOf(bo.X):
+			edge = 0
+		case bo.Op == token.GEQ && sameExpr(bo.X, idx) && lenOf(bo.Y):
+			edge = 1
+		case bo.Op == token.LEQ && sameExpr(bo.Y, idx) && lenOf(bo.X):
+			edge = 1
+		}
+		if edge >= 0 && edgeDominates(ob, ob.Succs[edge], at) {
+			// non-negative: a loop counter starting at 0/-1 plus a non-negative constant
+			if b2, ok := idx.(*ssa.BinOp); ok && b2.Op == token.ADD {
+				if c, ok := constInt64(b2.Y); ok && c >= 0 {
+					if p, ok := b2.X.(*ssa.Phi); ok && phiStartsAt(p, -1) {
+						return "the same index expression is tested against the length on a dominating edge"
+					}
+				}
+			}
+		}
+	}
+	// D: descending loop  for i := len(x)-1; i >= 0; i--
+	if p, ok := idx.(*ssa.Phi); ok {
+		okEdges := true
+		for _, e := range p.Edges {
+			b2, ok := e.(*ssa.BinOp)
+			if !ok || b2.Op != token.SUB {
+				okEdges = false
+				break
+			}
+			c, isC := constInt64(b2.Y)
+			if !isC || c < 1 {
+				okEdges = false
+				break
+			}
+			if !(lenOf(b2.X) || b2.X == ssa.Value(p)) {
+				okEdges = false
+			}
+		}
+		if okEdges {
+			for _, ob := range f.Blocks {
+				iff := blockIf(ob)
+				if iff == nil {
+					continue
+				}
+				bo, ok := iff.Cond.(*ssa.BinOp)
+				if !ok || bo.X != ssa.Value(p) {
+					continue
+				}
+				k, ok := constInt64(bo.Y)
+				if !ok {
+					continue
+				}
+				if (bo.Op == token.GEQ && k == 0 && edgeDominates(ob, ob.Succs[0], at)) || (bo.Op == token.LSS && k == 0 && edgeDominates(ob, ob.Succs[1], at)) || (bo.Op == token.GTR && k == -1 && edgeDominates(ob, ob.Succs[0], at)) {
+					return "descending counter: starts at len-1, only decreases, and is tested >= 0 on a dominating edge"
+				}
+			}
+		}
+	}
+	return ""
+}
+
+func phiStartsAt(p *ssa.Phi, min int64) bool {
+	for _, e := range p.Edges {
+		if k, ok := constInt64(e); ok {
+			if k < min {
+				return false
+			}
+			continue
+		}
+		if bo, ok := e.(*ssa.BinOp); ok && bo.Op == token.ADD {
+			if k, ok := constInt64(bo.Y); ok && k >= 0 {
+				continue
+			}
+		}
+		return false
+	}
+	return true
 }
